@@ -42,6 +42,9 @@ META = {
 }
 
 BEH = ['raise', 'now_ok', 'now_err', 'later_ok', 'later_err']
+# paged statements: the first response says 'more pages'; the consumer pages on (ResultSet.fetch_next_page) as soon as it
+# holds the result and the next page is delivered by the pager thread
+PAGED = ['now_paged_ok', 'later_paged_ok']
 FOCUS = [getattr(ResponseFuture, n).__code__ for n in
          ('add_callback', 'add_errback', 'add_callbacks', 'clear_callbacks', '_set_final_result', '_set_final_exception')]
 
@@ -60,6 +63,21 @@ class Boom(Exception):
     pass
 
 
+class _Message(object):
+    paging_state = None
+
+
+class PagedFuture(ResponseFuture):
+    """The real ResponseFuture; only the transmission of a request is replaced: a next-page request (the real
+    start_fetching_next_page ran before) is recorded for the pager thread of the harness."""
+    _vidx = None
+
+    def send_request(self, error_no_hosts=True):
+        self.session.page_requests.append(self._vidx)
+        self.session.note('page', self._vidx)
+        return True
+
+
 class StubSession(object):
     row_factory = staticmethod(lambda names, rows: rows)
     keyspace = None
@@ -73,6 +91,8 @@ class StubSession(object):
         self.peak = 0
         self.errors = {}
         self.log = []              # (virtual thread, 'enter' | 'fail' | 'done' | 'end', idx) in global (serialised) order
+        self.page_requests = []    # statements whose next page the consumer asked for, in order
+        self.pages_delivered = 0
 
     def note(self, kind, idx):
         cur = self.s.current
@@ -89,12 +109,15 @@ class StubSession(object):
             e = self.errors[idx] = Boom('sync %d' % idx)
             self.note('fail', idx)
             raise e
-        f = ResponseFuture(self, message=None, query=None, timeout=None)
+        if b in PAGED:
+            f = PagedFuture(self, message=_Message(), query=None, timeout=None)
+        else:
+            f = ResponseFuture(self, message=None, query=None, timeout=None)
         f._vidx = idx
         self.inflight += 1
         self.peak = max(self.peak, self.inflight)
         self.created[idx] = f
-        if b in ('now_ok', 'now_err'):
+        if b.startswith('now'):
             self.complete(idx)
         return f
 
@@ -102,11 +125,20 @@ class StubSession(object):
         f = self.created[idx]
         self.inflight -= 1
         if self.beh[idx].endswith('ok'):
+            if self.beh[idx] in PAGED:
+                f._paging_state = b'more'          # what _set_result does with a response that has more pages
             f._set_final_result([('row', idx)])
         else:
             e = self.errors[idx] = Boom('async %d' % idx)
             self.note('fail', idx)
             f._set_final_exception(e)
+
+    def deliver_next_page(self, idx):
+        """The last page of statement idx arrives (not one of the executor's statements: in-flight is not touched)."""
+        f = self.created[idx]
+        f._paging_state = None
+        self.pages_delivered += 1
+        f._set_final_result([('page2', idx)])
 
     def first_failure_candidates(self):
         """Statements whose failure may count as 'the first' (in completion order).
@@ -184,21 +216,64 @@ def harness(params, prefix, part):
     try:
         stmts = [(i, None) for i in range(len(beh))]
 
+        paged = [i for i, b in enumerate(beh) if b in PAGED]
+
+        def consume(r):
+            """What an application does with a result it has been handed: a result set with more pages is paged on at
+            once (the real ResultSet.fetch_next_page -> start_fetching_next_page -> result())."""
+            if not paged or not r[0]:
+                return
+            rs = r[1]
+            out.setdefault('seen', []).append((rs.response_future._vidx, list(rs.current_rows)))
+            if rs.has_more_pages:
+                rs.fetch_next_page()
+
         def client():
             try:
                 if variant == 'list':
-                    out['res'] = cc.execute_concurrent(sess, stmts, concurrency=conc, raise_on_first_error=ff)
+                    res = cc.execute_concurrent(sess, stmts, concurrency=conc, raise_on_first_error=ff)
+                    for r in res:
+                        consume(r)
+                    out['res'] = res
                 elif variant == 'gen':
-                    out['res'] = list(cc.execute_concurrent(sess, stmts, concurrency=conc, raise_on_first_error=ff, results_generator=True))
+                    res = []
+                    for r in cc.execute_concurrent(sess, stmts, concurrency=conc, raise_on_first_error=ff, results_generator=True):
+                        res.append(r)
+                        consume(r)
+                    out['res'] = res
                 else:
                     fut = cc.execute_concurrent_async(sess, stmts, concurrency=conc, raise_on_first_error=ff)
                     out['fut'] = fut
+                    if paged:
+                        # the application waits for the future and pages on
+                        s.block(fut.done, None, 'async future done')
+                        if fut.exception() is None:
+                            for r in fut.result():
+                                consume(r)
             except Boom as e:
                 out['raised'] = e
             except BaseException as e:
                 if isinstance(e, sched.Abort):
                     raise
                 out['escaped'] = e
+            out['client_done'] = True
+            sess.note('end', None)
+
+        def pager():
+            # delivers the next (last) page of every statement the consumer asked a page of, in the order of the requests
+            served = 0
+            while True:
+                s.block(lambda: len(sess.page_requests) > served or 'client_done' in out, None, 'a next-page request')
+                if len(sess.page_requests) <= served:
+                    break
+                i = sess.page_requests[served]
+                served += 1
+                try:
+                    sess.deliver_next_page(i)
+                except BaseException as e:
+                    if isinstance(e, sched.Abort):
+                        raise
+                    out.setdefault('completer_exc', []).append(e)
             sess.note('end', None)
 
         later = [i for i, b in enumerate(beh) if b.startswith('later')]
@@ -229,6 +304,9 @@ def harness(params, prefix, part):
                 s.spawn(completer(later[0::2]), 'completerA')
                 if later[1::2]:
                     s.spawn(completer(later[1::2]), 'completerB')
+        if paged:
+            # not runnable before there is something to deliver (a thread that only starts in order to wait adds nothing)
+            s.spawn(pager, 'pager').waiting = lambda: bool(sess.page_requests) or 'client_done' in out
         s.run()
     finally:
         cc.Condition, cl.Lock, cl.Event, cc.Future = saved
@@ -298,13 +376,23 @@ def harness(params, prefix, part):
         else:
             for i, r in enumerate(res):
                 ok = beh[i].endswith('ok')
-                good = (r[0] is True and list(r[1]) == [('row', i)]) if ok else (r[0] is False and r[1] is sess.errors.get(i))
+                if beh[i] in PAGED:
+                    # iterating a paged result set would page on: judged by the first page the consumer saw
+                    good = r[0] is True and r[1].response_future._vidx == i and (i, [('row', i)]) in out.get('seen', [])
+                else:
+                    good = (r[0] is True and list(r[1]) == [('row', i)]) if ok else (r[0] is False and r[1] is sess.errors.get(i))
                 if not good:
                     part.violation('C32/result-position/%s/%s' % (variant, cls),
                                    'position %d holds %r for behaviour %s; params %r' % (i, r, beh[i], params), data)
                     break
     elif variant != 'async' or 'fut' not in out:
         part.violation('C32/no-outcome/%s' % variant, 'neither results nor exception; params %r' % (params,), data)
+    if sess.pages_delivered:
+        part.count('next_pages_delivered', sess.pages_delivered)
+        # the consumer asked for the next page while the thread that delivered the first page was still inside that delivery
+        for pos, (thr, kind, idx) in enumerate(sess.log):
+            if kind == 'page' and not any(k == 'done' and j == idx for (_, k, j) in sess.log[:pos]) and beh[idx].startswith('later'):
+                part.count('paged_on_before_first_page_delivery_returned')
     if any(p.chosen for p in s.trace):
         part.mark_nontrivial(repr((params, s.choices())))
     part.sample({'params': params, 'choices': s.choices(), 'outcome': 'raised' if raised is not None else 'results'}, limit=1)
@@ -318,9 +406,9 @@ def configs(ctx):
     out = []
     seen = set()
 
-    def add(beh, conc, **extra):
+    def add(beh, conc, variants=('list', 'gen', 'async'), **extra):
         for ff in (False, True):
-            for variant in ('list', 'gen', 'async'):
+            for variant in variants:
                 key = (tuple(beh), conc, ff, variant, extra.get('completers', 1))
                 if key not in seen:
                     seen.add(key)
@@ -341,6 +429,18 @@ def configs(ctx):
         for beh in itertools.product(SYNC, repeat=n):
             for conc in range(1, n + 1):
                 add(beh, conc)
+    # paged statements (first response has more pages, the consumer pages on, the pager thread delivers the next page)
+    for n in (1, 2, 3):
+        if n <= 2:
+            vecs = [v for v in itertools.product(BEH + PAGED, repeat=n) if set(v) & set(PAGED)]
+        else:
+            others = BEH if ctx.thorough else sub3
+            vecs = [v for v in itertools.product(list(others) + ['later_paged_ok'], repeat=n) if 1 <= v.count('later_paged_ok') <= 2]
+        for beh in vecs:
+            for conc in (range(1, n + 1) if (n <= 2 or ctx.thorough) else (1, 2)):
+                # list / async-future hand the results out when the run is over: the consumer's paging can only overlap the
+                # last completion, which n <= 2 has; n = 3 in the quick tier: generator only
+                add(beh, conc, variants=('list', 'gen', 'async') if (n <= 2 or ctx.thorough) else ('gen',))
     if ctx.thorough:
         # two completer threads (bound 1 already yields ~4000 schedules per configuration): n = 2 every vector with two
         # later completions, n = 3 over the 3-behaviour subset at concurrency 2
